@@ -264,13 +264,38 @@ def handleDelta (req : Sexp) : Option Sexp :=
           | none => false) then some (.list [.atom "err", .atom "KeyError"])
       else some (ratOut (Stats.deltaVar syms (fun s => (Stats.lookupS g s).getD 0) c))
     | _, _, _ => some bad
-  | .list [.atom "cook2l", cl, cols, bl, base, m] =>
-    match strs? cl, mat? cols, strs? bl, rats? base, mat? m with
-    | some cl, some cols, some bl, some base, some m =>
-      if !rectangular cols || !square m || m.length != cols.length || base.length != cols.length
-         || cl.length != cols.length || bl.length != base.length || !cl.all (fun l => bl.contains l) then some bad
-      else some (.list ((Stats.cook2Labelled cl cols bl base m).map (fun o => match o with | some q => ratOut q | none => .atom "singular")))
-    | _, _, _, _, _ => some bad
+  | .list [.atom "cook2l", cl, cols, base, ccols, crows] =>
+    match strs? cl, mat? cols, grad? base, lcov? ccols crows with
+    | some cl, some cols, some base, some c =>
+      if !rectangular cols || cl.length != cols.length then some bad
+      else if !cl.all (fun l => (Stats.lookupS base l).isSome) then some (.list [.atom "err", .atom "KeyError"])
+      else if !cl.all (fun a => match Stats.lookupS c.rows a with
+          | some r => cl.all (fun b => (Stats.lookupS r b).isSome)
+          | none => false) then some (.list [.atom "err", .atom "KeyError"])
+      else some (.list ((Stats.cook2Labelled cl cols base c).map (fun o => match o with | some q => ratOut q | none => .atom "singular")))
+    | _, _, _, _ => some bad
+  | .list [.atom "shrinkagel", en, om, ie] =>
+    match strs? en, rats? om, ie.asList? with
+    | some en, some om, some ie =>
+      match ie.mapM (fun x => match x with
+          | .list [.atom k, col] => do some (k, ← rats? col)
+          | _ => none) with
+      | some ie =>
+        if en.length != om.length then some bad
+        else if !ie.all (fun nc => en.contains nc.1) then some (.list [.atom "err", .atom "KeyError"])
+        else some (.list ((Stats.etaShrinkageL en om ie).map (fun p => .list [.atom p.1, ratOut p.2])))
+      | none => some bad
+    | _, _, _ => some bad
+  | .list [.atom "ishrinkagel", en, om, ds] =>
+    match strs? en, rats? om, ds.asList? with
+    | some en, some om, some ds =>
+      match ds.mapM grad? with
+      | some ds =>
+        if en.length != om.length then some bad
+        else if !ds.all (fun d => d.all (fun nd => en.contains nd.1)) then some (.list [.atom "err", .atom "KeyError"])
+        else some (.list (ds.map (fun d => .list ((Stats.indShrinkageL en om d).map (fun p => .list [.atom p.1, ratOut p.2])))))
+      | none => some bad
+    | _, _, _ => some bad
   | _ => none
 
 def handle (req : Sexp) : Sexp :=
